@@ -29,6 +29,10 @@ def run(tier):
     # P: both Python classes against the same oracle (so they agree with each other on everything but T/MEMPTR)
     out = simrun.run_all(nx=4 if tier == 'quick' else 40)
     simprops.gather(rep, out, lambda kind, cmio: simprops.is_func(kind, cmio) or simprops.is_timing(kind, cmio), lambda d: d.startswith('post.') or d.startswith('frame.'), 'C06')
+    # P: the interrupt loop of Simulator.run (inherited by CMIOSimulator): an interrupt is offered after an instruction iff the
+    # clock is then inside the INT window and IFF is set - the rule the C simulators implement by re-testing after every instruction
+    from props import c10
+    c10.schedule_lemma(rep, 'simulator', prop='C06')
     # B: the C side
     env = dict(os.environ)
     env['PYTHONPATH'] = '%s:%s' % (os.environ.get('VERIF_REPO', '/repo'), common.ROOT)
